@@ -291,7 +291,7 @@ from coba.pipes.multiprocessing import Multiprocessor
 if __name__ == '__main__':
     P, Max, N, bad, kind, outs, rendering = json.loads(sys.argv[1])
     # the second stream's items 101.. are rendered as palette entries further on (ids 101.. in the table)
-    tab = None if rendering == 'int' else dict(item_table(rendering, range(1, N + 1)), **{k: v + 93 for k, v in item_table(rendering, range(8, 8 + N)).items()})
+    tab = None if rendering == 'int' else dict(list(item_table(rendering, range(1, N + 1)).items()) + [(k, v + 93) for k, v in item_table(rendering, range(8, 8 + N)).items()])
     R = (lambda x: x) if rendering == 'int' else (lambda x: render(rendering, x if x < 100 else x - 93))
     m = Multiprocessor(PidF(bad, kind, outs, tab), P, Max); got2 = []; exc2 = None
     try:
